@@ -392,7 +392,10 @@ class Param():
         element = self.toc.get_element_by_complete_name(complete_name)
 
         def new_packet_cb(pk):
-            if pk.channel == MISC_CHANNEL and pk.data[0] == MISC_GET_DEFAULT_VALUE:
+            # The reply carries the id of the parameter it is about: only the
+            # request for that parameter may consume it
+            if pk.channel == MISC_CHANNEL and pk.data[0] == MISC_GET_DEFAULT_VALUE and \
+                    pk.data[1:3] == struct.pack('<H', element.ident):
                 if pk.data[3] == errno.ENOENT:
                     callback(complete_name, None)
                     self.cf.remove_port_callback(CRTPPort.PARAM, new_packet_cb)
@@ -423,7 +426,10 @@ class Param():
             raise AttributeError(f"Param '{complete_name}' is not persistent")
 
         def new_packet_cb(pk):
-            if pk.channel == MISC_CHANNEL and pk.data[0] == MISC_PERSISTENT_CLEAR:
+            # The reply carries the id of the parameter it is about: only the
+            # request for that parameter may consume it
+            if pk.channel == MISC_CHANNEL and pk.data[0] == MISC_PERSISTENT_CLEAR and \
+                    pk.data[1:3] == struct.pack('<H', element.ident):
                 callback(complete_name, pk.data[3] == 0)
                 self.cf.remove_port_callback(CRTPPort.PARAM, new_packet_cb)
 
@@ -452,7 +458,10 @@ class Param():
             raise AttributeError(f"Param '{complete_name}' is not persistent")
 
         def new_packet_cb(pk):
-            if pk.channel == MISC_CHANNEL and pk.data[0] == MISC_PERSISTENT_STORE:
+            # The reply carries the id of the parameter it is about: only the
+            # request for that parameter may consume it
+            if pk.channel == MISC_CHANNEL and pk.data[0] == MISC_PERSISTENT_STORE and \
+                    pk.data[1:3] == struct.pack('<H', element.ident):
                 callback(complete_name, pk.data[3] == 0)
                 self.cf.remove_port_callback(CRTPPort.PARAM, new_packet_cb)
 
@@ -486,7 +495,10 @@ class Param():
             raise AttributeError(f"Param '{complete_name}' is not persistent")
 
         def new_packet_cb(pk):
-            if pk.channel == MISC_CHANNEL and pk.data[0] == MISC_PERSISTENT_GET_STATE:
+            # The reply carries the id of the parameter it is about: only the
+            # request for that parameter may consume it
+            if pk.channel == MISC_CHANNEL and pk.data[0] == MISC_PERSISTENT_GET_STATE and \
+                    pk.data[1:3] == struct.pack('<H', element.ident):
                 if pk.data[3] == errno.ENOENT:
                     callback(complete_name, None)
                     self.cf.remove_port_callback(CRTPPort.PARAM, new_packet_cb)
